@@ -35,6 +35,9 @@ checks = {
  "C13": ("lmtp", "Lmtp.tla models the status collector as the code builds it (one bounded channel per distinct address, capacity = multiplicity) with the backend as a nondeterministic program running concurrently with the emitter; TLC checks for every recipient list up to the bound, every program within the contract and every interleaving that each reply carries the right status, channels never overflow, no deadlock, termination; every recipient list x program x status timing (before/after consuming the message) x return {nil, error, panic} is then run on the real LMTP server via DATA, BDAT LAST in one and two chunks, a backend failing inside the LAST chunk, and plain backends, and the recorded reply sequences are judged by TLC against Lmtp!Expected; replies must name their recipient; a final response that never completes is reported when the handler is proven blocked",
          "recipient lists up to 3 (quick) / 4 (thorough) over two addresses; backend programs stay within the documented contract",
          "TLA+ model checking (TLC, safety + liveness) + exhaustive program enumeration on the real server judged by TLC"),
+ "C17": ("reply", "Reply.tla defines Format (what the server writes for an error: enhanced code on every line, X.0.0 when unset, none when explicitly absent) and Parse (what the go-smtp client recovers) over a token alphabet {ASCII word, non-ASCII word, enhanced-code look-alike, space}; TLC proves Parse(Format(e)) = Norm(e) for every message up to the bound except the shapes that are ambiguous on the wire by construction; a scripted backend then returns each error shape from each of the four callbacks, the raw reply is tokenised and the real client's *SMTPError recorded, and TLC judges wire form and client result per case; codes, concrete enhanced code values, exact text and the generic 451/554 mapping are compared by the harness",
+         "token shapes up to 3 tokens x 2 lines (quick) / 3 lines (thorough); adjacent words are not a distinct shape",
+         "TLA+ round-trip theorem (TLC) + recorded server/client results judged by TLC"),
  "C18": ("lmtpclient", "LmtpClient.tla models the client's recipient list over several transactions (MAIL starts it afresh, RCPT appends when accepted, Close reads one reply per listed recipient); TLC checks that Close reads exactly what the server owes and reports this transaction's recipients; the real LMTP client is driven against the real LMTP server through 1..3 transactions with verdict vectors over {250,450,550}, recipients refused at RCPT, Reset in between, with and without status callback, and every Close result (callback sequence, returned error) is judged by TLC against the declarative definitions; a Close that waits for replies that never come is caught by a short SubmissionTimeout",
          "recipients per transaction up to 2 (quick) / 3 (thorough)",
          "TLA+ model checking (TLC) + recorded client results judged by TLC"),
